@@ -59,7 +59,7 @@ def sections (toks : List String) : List (List String) :=
 /-- RFC 5052 partition through the model of partition.rs: source symbols per block, and the
     byte length the receiver accounts for each block.  Objects of more than 200000 blocks (only
     the never-transmitted boundary objects of the refusal clause) are cut to their first 64 blocks. -/
-def blocksOf (sch : Scheme) (tl e b : Nat) : Option (Array Nat × Array Nat × Nat) :=
+def blocksOf (sch : Scheme) (tl e b : Nat) : Option (Array Nat × Array Nat × Nat × Nat × Nat × Nat) :=
   match Partition.blockPartitioning b tl e with
   | .error _ => none
   | .ok (aL, aS, nL, n) =>
@@ -69,7 +69,7 @@ def blocksOf (sch : Scheme) (tl e b : Nat) : Option (Array Nat × Array Nat × N
     let blen := (List.range n').map (fun s =>
       let k := if s < nL then aL else aS
       if sch == .rsus then k * e else min (k * e) (tl - first s * e))
-    some (ks.toArray, blen.toArray, aL)
+    some (ks.toArray, blen.toArray, aL, aS, nL, n)
 
 structure Loaded where
   cfg : SessCfg
@@ -119,10 +119,10 @@ def parseCar (s : String) : Option (Option Sched.Carousel) :=
     object's queue / transfer count / carousel mode / packets per transfer (from the model's own block encoder),
     the engine's clock (a read every `dt` µs after a packet, every `idle` µs after nothing) - and must name, packet
     by packet, the same source.  `none` = agreement. -/
-def schedDiverge (full : Bool) (fcar : Sched.Carousel) (mux : List Nat) (dt idle : Nat)
+def schedDiverge (full : Bool) (fcar : Sched.Carousel) (mux : List Nat) (dt idle fid0 : Nat)
     (adds : List (Nat × Sched.AddArgs)) (fdtPk : List Nat) (sched : List Slot) : Option String :=
   let cfg : Sched.Cfg :=
-    { mode := if full then .full else .being, fdtCarousel := fcar, fdtDuration := 3600000000, fdtStartId := 1,
+    { mode := if full then .full else .being, fdtCarousel := fcar, fdtDuration := 3600000000, fdtStartId := fid0,
       queues := (List.range mux.length).zip mux }
   let st0 := Sched.init cfg fdtPk
   let st1 := adds.foldl (fun st (toi, a) => (Sched.addObject { st with nextToi := toi } a).1) st0
@@ -174,8 +174,8 @@ def loadSession (toks : List String) : SessRes :=
               | some tl =>
                 match blocksOf oti.sch tl oti.e oti.b with
                 | none => none
-                | some (ks, blen, aL) =>
-                  let ref := refused oti.sch oti.e oti.b oti.p tl aL
+                | some (ks, blen, aL, aS, nL, n) =>
+                  let ref := refusedFull oti.sch oti.e oti.b oti.p tl aL aS nL n
                   if toiS == "-" then some (none, true, ref) else
                   match toiS.toNat? with
                   | none => none
@@ -196,7 +196,7 @@ def loadSession (toks : List String) : SessRes :=
           | some id, some len =>
             let files? : Option (List Nat) := if tois == "-" then some [] else (tois.splitOn ",").mapM (·.toNat?)
             match files?, blocksOf doti.sch len doti.e doti.b with
-            | some files, some (ks, _, _) => some { id := id, ks := ks, files := files }
+            | some files, some (ks, _, _, _, _, _) => some { id := id, ks := ks, files := files }
             | _, _ => none
           | _, _ => none
         | _ => none)
@@ -233,8 +233,10 @@ def loadSession (toks : List String) : SessRes :=
                   some (toi, a))
               | _, _, _, _ => none)
             let adds : Option (List (Nat × Sched.AddArgs)) := addsRaw.map (fun l => l.filterMap id)
-            let maxId := fdts.foldl (fun a f => max a f.id) 0
-            let fdtPk := (List.range maxId).map (fun k => match fdts.find? (fun f => f.id == k + 1) with
+            -- the k-th publication carries the instance id (fdt_start_id + k) mod 2^20
+            let fid0 := ((look kv "fid0").bind (·.toNat?)).getD 1
+            let nPub := fdts.foldl (fun a f => max a ((f.id + 2^20 - fid0 % 2^20) % 2^20 + 1)) 0
+            let fdtPk := (List.range nPub).map (fun k => match fdts.find? (fun f => f.id == (fid0 + k) % 2^20) with
               | some f => trLen (Slot.fdt f.id) | none => 1)
             let mux? := (look kv "mux").bind (fun m => (m.splitOn ",").mapM (·.toNat?))
             -- (a source that emits nothing is outside the scheduler model's "n packets per transfer" abstraction)
@@ -244,7 +246,7 @@ def loadSession (toks : List String) : SessRes :=
               match adds, (look kv "mode"), (look kv "fcar").bind parseCar, mux?, (look kv "dt").bind (·.toNat?),
                     (look kv "idle").bind (·.toNat?) with
               | some adds, some mode, some (some fcar), some mux, some dt, some idle =>
-                match schedDiverge (mode == "full") fcar mux dt idle adds fdtPk sched with
+                match schedDiverge (mode == "full") fcar mux dt idle fid0 adds fdtPk sched with
                 | none => ""
                 | some m => " SCHED-DIVERGE " ++ m
               | _, _, _, _, _, _ => " SCHED-DIVERGE parse"
